@@ -108,6 +108,31 @@ fn finish(v: u8, family: &'static str, mut e: Ev, room: &Room, f: &mut dyn FnMut
             e2.content = c.to_string();
             with_via = Some(e2);
         }
+        // likewise a malformed `third_party_invite` on anything but an invite: nobody looks at it
+        let mut c = e.content_value();
+        let not_invite = c.get("membership").and_then(Value::as_str).is_some_and(|m| m != "invite");
+        if not_invite && c.get("third_party_invite").is_none() {
+            c["third_party_invite"] = json!("not an object");
+            let mut e3 = e.clone();
+            e3.content = c.to_string();
+            f(Case { v, family, ev: e3, state: room.state.clone(), tpi_sig_valid: false });
+        }
+    }
+    // from room version 11 the creator is the sender of the create event; a leftover `creator` field in its
+    // content (a room upgraded by old software) names nobody
+    if v >= 11 && e.ty != "m.room.create" {
+        let key = ("m.room.create".to_owned(), String::new());
+        if let Some(create) = room.state.get(&key) {
+            let mut c = create.content_value();
+            if c.get("creator").is_none() {
+                c["creator"] = json!(if create.sender == SENDER { TARGET } else { SENDER });
+                let mut st = room.state.clone();
+                let mut create2 = create.clone();
+                create2.content = c.to_string();
+                st.insert(key, create2);
+                f(Case { v, family, ev: e.clone(), state: st, tpi_sig_valid: false });
+            }
+        }
     }
     f(Case { v, family, ev: e, state: room.state.clone(), tpi_sig_valid: false });
     if let Some(e2) = with_via {
@@ -284,7 +309,7 @@ fn fam_join(v: u8, f: &mut dyn FnMut(Case)) {
     for sender_is_target in [true, false] {
         for cur in CUR {
             for jr in join_rules() {
-                for prev_shape in 0..4 {
+                for prev_shape in 0..5 {
                     for target_is_creator in [false, true] {
                         for via in VIAS {
                             let restricted_like = matches!(jr.as_ref().and_then(|j| j.as_str()), Some("restricted" | "knock_restricted"));
@@ -347,8 +372,16 @@ fn fam_join(v: u8, f: &mut dyn FnMut(Case)) {
                                 0 => vec!["$create:s1".to_owned()],
                                 1 => vec!["$create:s1".to_owned(), "$other:s1".to_owned()],
                                 2 => vec!["$other:s1".to_owned()],
-                                _ => vec!["$other:s1".to_owned(), "$create:s1".to_owned()],
+                                3 => vec!["$other:s1".to_owned(), "$create:s1".to_owned()],
+                                // no previous event at all: "the only previous event is the create event" is false
+                                _ => vec![],
                             };
+                            if prev_shape == 4 {
+                                // `finish` would supply a previous event
+                                fill_auth_events(v, &mut e, &room.state);
+                                f(Case { v, family: "member-join", ev: e, state: room.state.clone(), tpi_sig_valid: false });
+                                continue;
+                            }
                             finish(v, "member-join", e, &room, f);
                         }
                     }
